@@ -64,8 +64,9 @@ Qed.
 Lemma set_offset_drops s : drops (s_ptls s) (s_txlog s) (s_txlog (tl_set_offset s)).
 Proof.
   sp. rewrite <- (firstn_skipn (N.to_nat (s_tlnf s)) (s_txlog s)) at 1.
-  apply drops_app. apply drops_filter. intros w _ F.
-  apply negb_false_iff, N.leb_le in F. exact F.
+  assert (Hf : forall l, drops (s_ptls s) l (filter (fun w => negb (s_ptls s <=? w_off w)) l)).
+  { intros l. apply drops_filter. intros w _ F. apply negb_false_iff, N.leb_le in F. exact F. }
+  apply drops_app2; [apply Hf|]. destruct (c_prealloc (s_cfg s)); [apply drops_refl|apply Hf].
 Qed.
 
 Lemma Inv_set_offset s : Inv s -> Inv (tl_set_offset s).
@@ -311,7 +312,9 @@ Lemma reload_spec log C : forall fuel b id alh pos,
 Proof.
   induction fuel as [|f IH]; intros b id alh pos Hok Hch Hid Halh Hids b' id' alh' pos'; cbn [reload].
   - intros [= <- <- <- <-]. auto.
-  - destruct (tl_read log pos) as [w|] eqn:R; [|intros [= <- <- <- <-]; auto].
+  - destruct (tl_start log pos) as [w|] eqn:R0; [|intros [= <- <- <- <-]; auto].
+    destruct (tl_start_read _ _ _ R0) as [Eoff R].
+    destruct ((0 <? len (w_pre w)) && (2 ^ 16 <=? len (w_pre w) - st_sszSize)); [intros [= <- <- <- <-]; auto|].
     destruct (alh_of H (r_hdr (w_rec w))) as [a|e|] eqn:Ea; [|intros [= <- <- <- <-]; auto|intros [= <- <- <- <-]; auto].
     destruct (list_eq_dec_b a (r_alh (w_rec w))) eqn:E1; cbn [negb]; [|intros [= <- <- <- <-]; auto].
     apply list_eq_dec_b_true in E1.
@@ -320,17 +323,16 @@ Proof.
     destruct (list_eq_dec_b (h_prevalh (r_hdr (w_rec w))) alh) eqn:E3; cbn [negb];
       [|intros [= <- <- <- <-]; auto].
     apply list_eq_dec_b_true in E3.
-    set (pe := {| pe_id := id + 1; pe_alh := a; pe_off := pos; pe_size := rec_size (w_rec w) |}).
+    set (pe := {| pe_id := id + 1; pe_alh := a; pe_off := w_hdr_off w; pe_size := rec_size (w_rec w) |}).
     destruct (pb_put_grow b pe Hok) as (b1 & Eb & Hok1 & Hl1).
     rewrite Eb. cbn [bind].
     apply IH; auto.
     + rewrite Hl1, map_app, app_assoc. cbn [map].
-      eapply (chain_snoc H log _ 0 (H []) 0 pos (cent pe) w); [exact Hch| | |].
+      eapply (chain_snoc H log _ 0 (H []) 0 pos (cent pe) w); [exact Hch| | |apply N.le_refl].
       * unfold points, cent, pe. cbn [ce_off ce_size ce_alh pe_off pe_size pe_alh].
         split; [exact R|]. split; [reflexivity|].
         rewrite lenN_app, lenN_map. split; [lia|]. split; [rewrite E3; exact Halh|symmetry; exact E1].
-      * apply tl_read_some in R. destruct R as [R _]. lia.
-      * apply tl_read_some in R. destruct R as [R _]. unfold w_end. rewrite R. apply N.le_refl.
+      * pose proof (w_off_le_hdr w). lia.
     + rewrite Hl1, lenN_app, lenN_cons, lenN_nil. lia.
     + rewrite Hl1, map_app, app_assoc. cbn [map]. rewrite last_alh_snoc. reflexivity.
     + rewrite Hl1. apply ids_from_snoc; auto. unfold pe. cbn [pe_id]. lia.
